@@ -20,24 +20,41 @@ WALL = {'quick': 900, 'thorough': 5400}
 RULE = ('A: random compile-shaped workflow plans (<= 10 actions in a random DAG with '
         'random names, 0-2 data nodes, 0-2 iteration groups that are flat [upper half + '
         'lower half, lower members read upper members, external inputs of the lower half '
-        'shared with the upper half] or diamond [declared list, forward reads], '
+        'shared with the upper half] or diamond [declared list, forward reads]; with two '
+        'groups, in 60% the later group reads members of the earlier one (its last member '
+        'or 1-2 drawn ones; half of these with the groups next to each other, few plain '
+        'actions and names in topological order, so that nothing sorts between them), '
         'repetitions 1-4, 1-3 requested predicates incl. one that is also an '
         'intermediate table of another, optional stop-signal file written by the '
         'recording runner during a drawn call / before the run / left empty); one case = '
         'one plan run through ExecuteLogicaProgram together and one predicate at a time. '
+        'Oracle over the runner log: a statement, iterated or not, first runs after the '
+        'LAST execution of every input outside its own iteration group. '
         'Non-trivial = an iteration group with R >= 2 that has a dependency into or out '
-        'of the group. B: generated SQLite programs (1-2 fact tables, 3-7 derived '
+        'of the group. B: 70% generated SQLite programs (1-2 fact tables, 3-7 derived '
         'predicates: filters, joins, unions, swaps, @Ground on ~65%, up to 2 deep '
         'recursions @Recursive(P, 21..44), self or mutual, which compile to @Iteration '
         'groups of 2 or 4 statements with 9-21 repetitions), 1-4 requested predicates; '
-        'compiled by the real compiler, executed on SQLite. Non-trivial = >= 2 grounded '
+        '30% hand-written @Iteration programs: 1-3 counter loops over @Ground predicates '
+        '(seed, 2 or 4 members in the default two-halves mode or 3 in mode "diamond", last '
+        'member written back with @Ground(Last, Seed), repetitions 2-5), a later loop '
+        'reading the result of an earlier one directly (85%) or through a plain grounded '
+        'predicate, a final predicate over the results, requests incl. seeds / readers; '
+        'compiled by the real compiler, executed on SQLite; additionally at SQL level: a '
+        'statement reading <dataset>.T runs after the last write to T by any statement '
+        'outside its own iteration group. Non-trivial = >= 2 grounded '
         'intermediate tables. Distinct by hash of the plan / (program, request).')
 ASSUMPTIONS = [
     'the execution objects handed to ExecuteLogicaProgram are the specification of the '
     'plan: statements = table_to_export_map, inputs = dependency_edges between '
     'statements, iterations as declared (a requested predicate that is also an '
     'intermediate table of another request counts as two statements)',
-    'domain A contains only iteration groups of the two shapes recursion_library emits',
+    'domain A contains only iteration groups of the two shapes recursion_library emits '
+    '(two-halves: outside inputs of the second half shared with the first half; diamond), '
+    'which may read members of an earlier group',
+    'B: hand-written two-halves @Iteration whose second half has an outside input of its '
+    'own is a known class (Concertina schedules the group on its first member only) and '
+    'is excluded by construction unless VERIF_C14_INCLUDE=lower_ext',
     'B: tables read/written by a statement are recognised textually '
     '(CREATE TABLE <db>.<t> AS / logica_test.<t>)',
     'B: the single-predicate run re-uses the execution object compiled for the '
